@@ -137,10 +137,12 @@ func (e *evaluator) evalBytes(x []byte, mut string) (refKind string) {
 	}
 	rk := kindOf(rerr)
 	e.cnt("kind."+shortKind(rk), 1)
-	okGen := e.call(stGenDecode, "Decode", "gen", x, func() { gn, gerr = c.Decode(clone(x), gobj) })
+	scratch := scratchOf(x) // the caller's buffer: private to this call, reused afterwards
+	okGen := e.call(stGenDecode, "Decode", "gen", x, func() { gn, gerr = c.Decode(scratch, gobj) })
 	if okGen {
 		gk := kindOf(gerr)
 		at := map[string]string{"ref": rk, "gen": gk, "mut": mut, "api": "Decode"}
+		e.inputUntouched("Decode", scratch, x, gk, mut)
 		switch {
 		case (rerr == nil) != (gerr == nil):
 			e.report("decode-accept-mismatch", at, x, nil)
@@ -152,6 +154,9 @@ func (e *evaluator) evalBytes(x []byte, mut string) (refKind string) {
 			}
 			if !reflect.DeepEqual(ro, gobj) {
 				e.report("decode-value-mismatch", at, x, map[string]string{"ref_value": fmt.Sprintf("%+v", ro), "gen_value": fmt.Sprintf("%+v", gobj)})
+			} else {
+				// the decoded value is the caller's: it survives the reuse of the input buffer
+				e.decodedSurvives("Decode", "decode_alias_checked", x, scratch, ro, gobj, nil, mut)
 			}
 		}
 	}
@@ -166,16 +171,19 @@ func (e *evaluator) evalBytes(x []byte, mut string) (refKind string) {
 	if rek == "remaining" {
 		e.cnt("kind.remaining", 1)
 	}
-	if e.call(stGenDecodeExact, "DecodeExact", "gen", x, func() { geerr = c.DecodeExact(clone(x), ge) }) {
+	scratchE := scratchOf(x)
+	if e.call(stGenDecodeExact, "DecodeExact", "gen", x, func() { geerr = c.DecodeExact(scratchE, ge) }) {
 		gek := kindOf(geerr)
 		at := map[string]string{"ref": rek, "gen": gek, "mut": mut, "api": "DecodeExact"}
+		e.inputUntouched("DecodeExact", scratchE, x, gek, mut)
+		sameValue := false
 		switch {
 		case (reerr == nil) != (geerr == nil):
 			e.report("exact-accept-mismatch", at, x, nil)
 		case reerr != nil && rek != gek:
 			e.report("exact-kind-mismatch", at, x, nil)
 		case reerr == nil:
-			if !reflect.DeepEqual(re, ge) {
+			if sameValue = reflect.DeepEqual(re, ge); !sameValue {
 				e.report("exact-value-mismatch", at, x, map[string]string{"ref_value": fmt.Sprintf("%+v", re), "gen_value": fmt.Sprintf("%+v", ge)})
 			}
 		}
@@ -199,6 +207,10 @@ func (e *evaluator) evalBytes(x []byte, mut string) (refKind string) {
 						}
 					}
 					e.report("exact-not-canonical", map[string]string{"gen": "different-bytes", "detail": detail, "mut": mut, "api": "Encode"}, x, map[string]string{"reencoded_hex": hexCap(b)})
+				}
+				if sameValue && err == nil {
+					// ... and still is that value, with that encoding, once the caller reuses its buffer
+					e.decodedSurvives("DecodeExact", "exact_alias_checked", x, scratchE, re, ge, b, mut)
 				}
 			}
 		}
@@ -269,6 +281,7 @@ func (e *evaluator) evalValue(obj interface{}, desc func() string) (ref []byte, 
 
 	// EncodeToBuffer: exact, roomy and short buffers
 	n := len(ref)
+	var exactBuf []byte
 	for _, extra := range []int{0, 7} {
 		buf := make([]byte, n+extra)
 		for i := range buf {
@@ -286,6 +299,8 @@ func (e *evaluator) evalValue(obj interface{}, desc func() string) (ref []byte, 
 				m := ex()
 				m["gen_hex"] = hexCap(buf[:n])
 				e.report("encode-bytes-mismatch", map[string]string{"api": "EncodeToBuffer"}, ref, m)
+			case !refMax && extra == 0:
+				exactBuf = buf
 			}
 		}
 	}
@@ -302,6 +317,10 @@ func (e *evaluator) evalValue(obj interface{}, desc func() string) (ref []byte, 
 				}
 			}
 		}
+	}
+	// neither output shares memory with the object
+	if !refMax && gerr == nil && bytes.Equal(gb, ref) {
+		e.encodeAlias(obj, ref, gb, exactBuf, ex)
 	}
 	return ref, true
 }
